@@ -7,7 +7,7 @@ SCALAR_REC = '%s:1,%s:1' % (SERIALIZE, RESET)  # scalars: serialize() and ~JSON 
 UNITS = {'ser': dict(wrap='wrap.cc', shim=True, new_block=96, cxxflags=['-DVERIF_UMAP_CAP=2'], cuts=CUTS, ir2c_flags=['--union-fp-bytes'])}
 BOUNDS = ('serializer side only, one scalar value at a time, the KIND of the value a concrete cell, its content symbolic. '
           'escape_string: every byte string of length 0..1 (quick) / 0..2 (thorough) x 3 modes. serialize: null, both booleans, every int64 with HEX_INTEGERS '
-          '(incl. INT64_MIN/MAX), ints of 1..2 (quick) / 1,2,3,5 (thorough) decimal digits without it, strings of length 0 (quick) / 0..2 (thorough), each x all 64 '
+          '(incl. INT64_MIN/MAX), ints of 1..2 (quick) / 1,2,3,5 (thorough) decimal digits without it, strings of length 0 (quick) / 0..1 (thorough), each x all 64 '
           'option sets (symbolic); doubles: every %g text of the shapes listed in the query names (1-6 integer digits, 0-5 fraction digits, optional 2-3 digit '
           'exponent) x 64 option sets. operator<=>/==/!=: all 25 kind pairs (thorough), all values, strings of length <= 2. Copies: every scalar kind, strings <= 3 bytes.')
 STUBS = ['vasprintf: engine/rt/stub_printf.h (exact for %X/%c/%s family) in h_escape.c, h_scalar.c, h_copy.c; in h_float.c a CONTRACT stub for "%g" returning an arbitrary '
@@ -51,7 +51,7 @@ def queries(tier):
         qs.append(dict(name='scalar_decint_%ddig' % nd, unit='ser', harness='h_scalar.c', defs={'KIND': 3, 'NDIG': nd}, unwind=nd + 18, unwindset=SCALAR_REC, timeout=900, mem_gb=6,
                        desc='serialize(int64) without HEX_INTEGERS returns exactly std::to_string(value) (%d-digit values, both signs) x 32 option sets' % nd,
                        bounds='%d decimal digits' % nd))
-    for L in ([0] if tier == 'quick' else [0, 1, 2]):
+    for L in ([0] if tier == 'quick' else [0, 1]):  # length 2: SAT back end > 14 GB
         qs.append(dict(name='scalar_string_len%d' % L, unit='ser', harness='h_scalar.c', defs={'KIND': 4, 'LEN': L}, unwind=6 * L + 20, unwindset=SCALAR_REC, timeout=900, mem_gb=6,
                        desc='serialize(string of %d symbolic bytes) x 64 option sets: quotes + body that un-escapes to the input, alphabet of the selected mode' % L,
                        bounds='string length == %d, all byte values' % L))
